@@ -1,5 +1,3 @@
-//go:build verif_c20
-
 package harness
 
 // C20 harness, second part: audit results and container size estimations.
